@@ -22,6 +22,7 @@ structure Inv (r : Run) (s : St) : Prop where
   policy : ∀ g ∈ r.cfg, g.min - max (s.sub.needs g.name) 0 ≤ (stored r.cfg s.sub g : Int)
   gdone_ok : ∀ g, s.gdone g = some true → s.sub.needs g ≤ 0
   recvd_ok : ∀ g, s.recvd g = some true → s.sub.needs g ≤ 0
+  recvd_gdone : ∀ g b, s.recvd g = some b → s.gdone g = some b
   ret_ok : ∀ ls e, s.ret = some (ls, e) → ls.Nodup ∧ (∀ l ∈ ls, l ∈ s.submitted) ∧
     (e = false → ∀ g ∈ r.cfg, g.min ≤ ((ls.filter (fun l => decide (l ∈ g.logs))).length : Int))
 
@@ -57,6 +58,7 @@ theorem inv_init {r : Run} (wf : WF r) : Inv r (St.init r) where
     omega
   gdone_ok := by intro g h; simp [St.init] at h
   recvd_ok := by intro g h; simp [St.init] at h
+  recvd_gdone := by intro g b h; simp [St.init] at h
   ret_ok := by intro ls e h; simp [St.init] at h
 
 /-- changing one goroutine's state to something other than `inflight` keeps the invariant -/
@@ -91,6 +93,7 @@ theorem inv_setGor {r : Run} {s : St} (h : Inv r s) (g : Grp) (l : Log) (x : GSt
   policy := h.policy
   gdone_ok := h.gdone_ok
   recvd_ok := h.recvd_ok
+  recvd_gdone := h.recvd_gdone
   ret_ok := h.ret_ok
 
 theorem stored_sctLogs (c : Cfg) (sub : Sub) (g : Group) :
@@ -121,16 +124,26 @@ theorem inv_easy {r : Run} {s s' : St} (h : Inv r s) (o : Op) (hs : step r s o =
   | groupDone g =>
     simp only [step] at hs
     split at hs
-    · cases hs
-      refine { h with gdone_ok := ?_ }
-      intro g' hg'
-      simp only [upd] at hg'
-      split at hg'
-      · rename_i he
-        subst he
-        simp only [Option.some.injEq, complete, decide_eq_true_eq] at hg'
-        exact hg'
-      · exact h.gdone_ok g' hg'
+    · rename_i hgd
+      cases hs
+      refine { h with gdone_ok := ?_, recvd_gdone := ?_ }
+      · intro g' hg'
+        simp only [upd] at hg'
+        split at hg'
+        · rename_i he
+          subst he
+          simp only [Option.some.injEq, complete, decide_eq_true_eq] at hg'
+          exact hg'
+        · exact h.gdone_ok g' hg'
+      · intro g' b hb
+        have hold := h.recvd_gdone g' b hb
+        simp only [upd]
+        split
+        · rename_i he
+          subst he
+          rw [hgd.2.1] at hold
+          cases hold
+        · exact hold
     · cases hs
   | recv g =>
     simp only [step] at hs
@@ -138,16 +151,25 @@ theorem inv_easy {r : Run} {s s' : St} (h : Inv r s) (o : Op) (hs : step r s o =
     · rename_i b hb
       split at hs
       · cases hs
-        refine { h with recvd_ok := ?_ }
-        intro g' hg'
-        simp only [upd] at hg'
-        split at hg'
-        · rename_i he
-          subst he
-          simp only [Option.some.injEq] at hg'
-          subst hg'
-          exact h.gdone_ok _ hb
-        · exact h.recvd_ok g' hg'
+        refine { h with recvd_ok := ?_, recvd_gdone := ?_ }
+        · intro g' hg'
+          simp only [upd] at hg'
+          split at hg'
+          · rename_i he
+            subst he
+            simp only [Option.some.injEq] at hg'
+            subst hg'
+            exact h.gdone_ok _ hb
+          · exact h.recvd_ok g' hg'
+        · intro g' b' hb'
+          simp only [upd] at hb'
+          split at hb'
+          · rename_i he
+            subst he
+            simp only [Option.some.injEq] at hb'
+            subst hb'
+            exact hb
+          · exact h.recvd_gdone g' b' hb'
       · cases hs
     · cases hs
   | ctxDone =>
@@ -233,7 +255,7 @@ theorem inv_request {r : Run} {s s' : St} (h : Inv r s) (g : Grp) (l : Log)
     cases hs
     refine {
       owner := ?_, infl_sub := ?_, sub_nodup := ?_, sub_res := ?_, sct_sub := ?_, active := ?_, sub_sess := ?_,
-      policy := ?_, gdone_ok := ?_, recvd_ok := ?_, ret_ok := ?_ }
+      policy := ?_, gdone_ok := ?_, recvd_ok := ?_, recvd_gdone := h.recvd_gdone, ret_ok := ?_ }
     · intro g' l' hin
       simp only [setGor] at hin ⊢
       split at hin
@@ -294,7 +316,7 @@ theorem inv_request {r : Run} {s s' : St} (h : Inv r s) (g : Grp) (l : Log)
     refine {
       owner := ?_, infl_sub := hbase.infl_sub, sub_nodup := hbase.sub_nodup, sub_res := ?_, sct_sub := ?_,
       active := hbase.active, sub_sess := hbase.sub_sess,
-      policy := ?_, gdone_ok := ?_, recvd_ok := ?_, ret_ok := hbase.ret_ok }
+      policy := ?_, gdone_ok := ?_, recvd_ok := ?_, recvd_gdone := h.recvd_gdone, ret_ok := hbase.ret_ok }
     · intro g' l' hin
       obtain ⟨h1, h2⟩ := hbase.owner g' l' hin
       refine ⟨?_, h2⟩
@@ -391,7 +413,7 @@ theorem inv_setResult {r : Run} {s s' : St} (wf : WF r) (h : Inv r s) (g : Grp) 
   refine {
     owner := ?_, infl_sub := hbase.infl_sub, sub_nodup := hbase.sub_nodup, sub_res := ?_, sct_sub := ?_,
     active := hbase.active, sub_sess := hbase.sub_sess,
-    policy := hpol, gdone_ok := ?_, recvd_ok := ?_, ret_ok := hbase.ret_ok }
+    policy := hpol, gdone_ok := ?_, recvd_ok := ?_, recvd_gdone := h.recvd_gdone, ret_ok := hbase.ret_ok }
   · intro g' l' hin
     obtain ⟨h1, h2⟩ := hbase.owner g' l' hin
     refine ⟨?_, h2⟩
